@@ -2,7 +2,10 @@ use crate::rt::Ctx;
 
 pub mod c01;
 pub mod c02;
+pub mod c04;
 pub mod c05;
+pub mod c06;
+pub mod c08;
 pub mod c16;
 pub mod offtrait;
 
@@ -10,7 +13,10 @@ pub fn dispatch(ctx: &mut Ctx) -> bool {
     match ctx.prop.as_str() {
         "C01" => c01::run(ctx),
         "C02" => c02::run(ctx),
+        "C04" => c04::run(ctx),
         "C05" => c05::run(ctx),
+        "C06" => c06::run(ctx),
+        "C08" => c08::run(ctx),
         "C16" => c16::run(ctx),
         _ => return false,
     }
